@@ -15,6 +15,7 @@ OPERANDS = {
     "dict": ("{1: 2}", {"|": "{3: 4}"}),
     "inplace": ("IP(1)", {op: "2" for op in OPS}),       # user class with in-place methods returning self
     "noinplace": ("NI(1)", {op: "2" for op in OPS}),     # user class with only binary methods
+    "inplace_new": ("IPN(1)", {op: "2" for op in OPS}),  # in-place methods that return a NEW object (the name must be rebound)
 }
 
 PRELUDE = '''
@@ -24,6 +25,13 @@ class IP:
     __iadd__ = __isub__ = __imul__ = __imatmul__ = __itruediv__ = __imod__ = __ipow__ = _ip
     __ilshift__ = __irshift__ = __ior__ = __ixor__ = __iand__ = __ifloordiv__ = _ip
     def __repr__(self): return "IP" + repr(self.v)
+class IPN:
+    def __init__(self, v): self.v = [v]
+    def _ip(self, o):
+        r = IPN(0); r.v = self.v + [o]; return r
+    __iadd__ = __isub__ = __imul__ = __imatmul__ = __itruediv__ = __imod__ = __ipow__ = _ip
+    __ilshift__ = __irshift__ = __ior__ = __ixor__ = __iand__ = __ifloordiv__ = _ip
+    def __repr__(self): return "IPN" + repr(self.v)
 class NI:
     def __init__(self, v): self.v = (v,)
     def _b(self, o): return NI2(self.v + (o,))
@@ -69,6 +77,12 @@ def aug_program(kind, op, target, placement):
         if target != "name":
             return None
         body = f"{setup}\ndef g():\n    global x\n    {stmt}\ng()\nprint({show})\n"
+    elif placement == "classglobal":
+        # the augmented name is a module global so far: the class body reads the global and binds a class member
+        if target != "name":
+            return None
+        body = (f"{setup}\nclass K:\n" + _ind(f"{stmt}\nprint({show})")
+                + f"\nprint({show}, sorted(k for k in vars(K) if not k.startswith('__')), K.x)\n")
     elif placement == "class":
         body = "class K:\n" + _ind(f"{setup}\n{stmt}\nprint({show})") + "\nprint(sorted(k for k in vars(K) if not k.startswith('__')))\n"
     else:
@@ -84,7 +98,7 @@ def all_aug_programs():
     for kind in OPERANDS:
         for op in OPS:
             for target in ("name", "attr", "sub", "slice"):
-                for placement in ("global", "local", "nonlocal", "globaldecl", "class"):
+                for placement in ("global", "local", "nonlocal", "globaldecl", "class", "classglobal"):
                     p = aug_program(kind, op, target, placement)
                     if p is not None:
                         yield (kind, op, target, placement), p
